@@ -22,7 +22,7 @@ RULE = ('Seeded scenarios: a real fit file of 1..10 sources (>= 1 fitted point a
         '(criterion, naming, channel, #good, #bad)).')
 ASSUMPTIONS = ['input records come from a real fit() run (their correctness is C10\'s subject)', 'a zero-byte output file is an empty list of records',
                'thresholds are > 0 and never equal to an attained value']
-PROBES = ['good_empty', 'bad_empty', 'both_nonempty', 'auto_names', 'channel_list', 'second_split', 'best_chi2_ge_1e30', 'output_names_reused', 'synthetic_threshold_adjacent', 'explicit_names_auto_in_name', 'explicit_names_auto_dir', 'explicit_names_swapped_words', 'explicit_names_next_to_input', 'threshold_not_a_python_float']
+PROBES = ['good_empty', 'bad_empty', 'both_nonempty', 'auto_names', 'channel_list', 'second_split', 'best_chi2_ge_1e30', 'output_names_reused', 'synthetic_threshold_adjacent', 'explicit_names_auto_in_name', 'explicit_names_auto_dir', 'explicit_names_swapped_words', 'explicit_names_next_to_input', 'threshold_not_a_python_float', 'one_name_explicit_one_automatic']
 
 
 def budgets(tier):
@@ -77,6 +77,7 @@ def generate(rng, tier, idx):
                       'naming': rng.choice(['explicit', 'auto']), 'channel': rng.choice(['path', 'list']), 'auto_as': rng.choice(['default', 'runtime']),
                       'name_style': rng.choice(['plain', 'plain', 'auto_in_name', 'auto_dir', 'swapped_words', 'next_to_input']),
                       'thr_type': rng.choice(['float', 'float', 'int', 'i64', 'f32', 'f64']),
+                      'one_auto': rng.choice([None, None, None, 'good', 'bad']),
                       # later steps either split an output of the previous step, or re-filter the SAME input again (tuning the
                       # threshold), in which case the outputs of the earlier run are still lying around under the same names
                       'input': 'fit' if k == 0 else rng.choice(['good', 'bad', 'fit', 'fit']),
@@ -169,6 +170,7 @@ def _execute(sc, sim, out):
     last_explicit = None
     auto_seen = set()
     auto_names = {}
+    mixed_auto = {}
     for i, st in enumerate(sc['steps']):
         inp = files.get(st['input'])
         if inp is None or not os.path.exists(inp) or os.path.getsize(inp) == 0:
@@ -241,7 +243,30 @@ def _execute(sc, sim, out):
                 g, b = last_explicit
                 out.probe('output_names_reused')
             last_explicit = (g, b)
-            r = pipe.call(filter_output, arg, output_good=g, output_bad=b, **kw)
+            mixed = st.get('one_auto') if channel == 'path' else None
+            if mixed == 'bad':
+                # one output named explicitly, the other left to the automatic name
+                r = pipe.call(filter_output, arg, output_good=g, **kw)
+            elif mixed == 'good':
+                r = pipe.call(filter_output, arg, output_bad=b, **kw)
+            else:
+                r = pipe.call(filter_output, arg, output_good=g, output_bad=b, **kw)
+            if mixed and r[0] == 'ok':
+                out.probe('one_name_explicit_one_automatic')
+                cand = [n_ for n_ in sorted(set(os.listdir(here)) - before - {'_tmp'}) if n_.endswith(mixed) and os.path.join(here, n_) not in (g, b)]
+                if (inp, mixed) in mixed_auto:
+                    cand = [os.path.basename(mixed_auto[(inp, mixed)])]
+                elif inp in auto_seen:
+                    cand = [os.path.basename(auto_names[inp][0 if mixed == 'good' else 1])]
+                if len(cand) != 1:
+                    out.violate('two-files', 'output_%s given, the other left automatic: automatic naming produced %s' % ('good' if mixed == 'bad' else 'bad', cand))
+                    break
+                mixed_auto[(inp, mixed)] = os.path.join(here, cand[0])
+                if mixed == 'bad':
+                    b = mixed_auto[(inp, mixed)]
+                else:
+                    g = mixed_auto[(inp, mixed)]
+                last_explicit = None
         else:
             out.probe('auto_names')
             if st.get('auto_as') == 'runtime':
@@ -257,6 +282,8 @@ def _execute(sc, sim, out):
                 # the same input was split with automatic names before: the outputs replace the earlier ones
                 new = sorted(os.path.basename(x) for x in auto_names[inp])
                 out.probe('output_names_reused')
+            # (an automatic name may already be there from a run that left only one of the two names automatic)
+            new = sorted(set(new) | set(os.path.basename(p_) for (i_, m_), p_ in mixed_auto.items() if i_ == inp))
             new = [n_ for n_ in new if n_.endswith('good') or n_.endswith('bad')]
             if len(new) != 2:
                 out.violate('two-files', 'automatic naming produced %s' % new)
